@@ -340,7 +340,11 @@ def cnt_read(ctx):
     """GCounter::read sums the counter of every dot of inner; PNCounter::read = read(p) - read(n)."""
     facts = ctx.facts
     body = ctx.inherent(GCOUNTER, 'read')
-    r = drop_lv(interp(facts, body).ret)
+    raw_ret = interp(facts, body).ret
+    g_ = general_ret(facts, body, {'inner': (1, ())})      # `if self.inner.is_empty() { return zero }` in front of the sum
+    if g_ is not None:
+        raw_ret = g_
+    r = drop_lv(raw_ret)
     ok = False
     if is_call(r, 'sum') and r[2]:
         src = r[2][0]
@@ -372,7 +376,7 @@ def cnt_read(ctx):
     if not ok:
         # accumulator form: total = 0; for dot in self.inner.iter() { total += dot.counter }
         from .loops import accumulates, item_derived
-        raw = interp(facts, body).ret
+        raw = raw_ret
 
         def init_ok(i):
             return (i[0] == 'call' and call_name(i) in ('default', 'zero', 'new') and not i[2]) or (i[0] == 'const' and i[1] == 0) \
